@@ -12,10 +12,12 @@ VARIABLES kind, owner, classes, place
    redirect from the owner's host ("redirect_anon").  Entries embedded there are that other host's word. *)
 Places == {"own", "foreign_anon", "redirect_anon", "inline_anon"}   \* inline_anon: embedded in the owner's document, without an id
 
-Init == /\ kind \in {"outbox", "replies"} /\ owner \in {"path", "query"}
+(* owner "anon": the owner (actor / parent post) has no id of its own - it only exists embedded in what was opened *)
+Init == /\ kind \in {"outbox", "replies"} /\ owner \in {"path", "query", "anon"}
         /\ classes \in UNION {[1..n -> IF kind = "outbox" THEN OutboxClasses ELSE ReplyClasses] : n \in 0..MaxLen}
-        /\ (kind = "replies" => owner = "path")
-        /\ place \in Places /\ (place # "own" => Len(classes) < MaxLen /\ owner = "path")
+        /\ (kind = "replies" => owner \in {"path", "anon"})
+        /\ (owner = "anon" => Len(classes) < MaxLen)
+        /\ place \in Places /\ (place # "own" => Len(classes) < MaxLen /\ (owner = "path" \/ (owner = "anon" /\ place = "inline_anon")))
 Next == UNCHANGED <<kind, owner, classes, place>>
 Spec == Init /\ [][Next]_<<kind, owner, classes, place>>
 
